@@ -44,7 +44,7 @@ const METAS: &[PropMeta] = &[
     PropMeta {
         id: "C16",
         level: "exploration",
-        rule: "a Raft-legal history of 0-40 ops brings the store into a reachable state; then a burst of 6-16 public calls (truncate, read, purge, commit, append, save_vote, save_user_data, stat, on_disk_size, dump, dump_data iteration, flush, finally update_state) with arguments drawn from {0,1,2, purged/first/last/committed index -1,+0,+1,+2, 2^32-1, 2^32, 2^63, u64::MAX-1, u64::MAX} in term and index position, including from>to; every call and a full read-back run under catch_unwind in a build with overflow checks and debug assertions on. Non-trivial = case with >=3 adversarial calls; distinct = distinct (config, call list). A second Types instantiation with a partially ordered vote checks save_vote with incomparable votes under catch_unwind.",
+        rule: "a Raft-legal history of 0-40 ops brings the store into a reachable state; then a burst of 6-16 public calls (truncate, read, purge, commit, append, save_vote, save_user_data, stat, on_disk_size, dump, dump_data iteration, flush, finally update_state) with arguments drawn from {0,1,2, purged/first/last/committed index -1,+0,+1,+2, 2^32-1, 2^32, 2^63, u64::MAX-1, u64::MAX} in term and index position, including from>to; every call and a full read-back run under catch_unwind in a build with overflow checks and debug assertions on. Non-trivial = case with >=3 adversarial calls; distinct = distinct (config, call list). A second Types instantiation with a partially ordered vote checks save_vote with incomparable votes under catch_unwind. Second workload: walks of 20-60 public calls aimed at the state the STORE reports, in which update_state (last/purged/committed/vote moved back and forth, also to ids appended earlier) is an ordinary step, followed by appends of ids that are still resident (other payload sizes), truncations, purges, drains, dumps, flushes and restarts that replay the journal; only panics are judged there.",
         assumptions: &["dev profile: overflow-checks and debug-assertions enabled", "a burst stops at the first call on which specification and store disagree about acceptance (that is C01/C06's subject), and after update_state"],
         min_distinct: 20,
     },
@@ -93,7 +93,7 @@ const METAS: &[PropMeta] = &[
     PropMeta {
         id: "C15",
         level: "exploration",
-        rule: "same scheduled histories and cache limits as C07; at every point where the worker is parked or idle the hook verif_cache_resident() (resident (log id, size) list + boundary under the cache lock) is compared with stat(): item count, byte size, boundary; right after every append (worker parked/idle since before the call, so the boundary in force is the one observed) an over-limit cache must hold no resident id <= boundary; at the end (worker idle) drain_cache_evictable() must leave no resident id <= boundary, also after a reopen. Non-trivial = run with >10 observations; distinct = distinct (config, interleaving). The limits used are the CONFIGURED ones (and stat() must report them); in half of the runs three reader threads read continuously while the single drain call is made.",
+        rule: "same scheduled histories and cache limits as C07; at every point where the worker is parked or idle the hook verif_cache_resident() (resident (log id, size) list + boundary under the cache lock) is compared with stat(): item count, byte size, boundary; right after every append (worker parked/idle since before the call, so the boundary in force is the one observed) an over-limit cache must hold no resident id <= boundary; at the end (worker idle) drain_cache_evictable() must leave no resident id <= boundary, also after a reopen. Non-trivial = run with >10 observations; distinct = distinct (config, interleaving). The limits used are the CONFIGURED ones (and stat() must report them); in half of the runs three reader threads read continuously while the single drain call is made. The count/size rule is also evaluated after every call of walks in which update_state moves last/purged back so that log ids still resident are appended again, truncated, purged, drained and replayed by restarts.",
         assumptions: &["hook H1 (feature verif-hooks) returns the cache map contents under its RwLock", "the limit clause is evaluated after appends only (the only writes that insert and evict)"],
         min_distinct: 20,
     },
@@ -376,6 +376,8 @@ fn cmd_replay(args: &[String]) -> i32 {
             let seed: u64 = rp["seed"].as_str().and_then(|s| s.parse().ok()).unwrap_or(1);
             (0..20).find_map(|_| props::seq::c16_concurrent(seed))
         }
+        "c16w" => props::c16walk::replay(rp),
+        "c15w" => props::c16walk::replay15(rp),
         "maxbatch" => props::maxbatch::replay(rp),
         "c09" => props::image::replay(rp, true),
         "c10" => props::image::replay(rp, false),
